@@ -17,9 +17,9 @@ CLAIMED = {
     "C09": dict(
         category="exploration",
         ref="DESIGN.md §5 C09, §3.2",
-        technique="deterministic simulation: seeded debugger schedules (pause points) over seeded programs, differential against the undebugged run of the same image on the real VM",
-        text="Seeded exploration of (program, command script, transport, separators, end-of-input point); the debugger's commands are the schedule that decides at which instruction boundaries the program is paused. Verdict is model-free: program stdout, final registers/PC/CC/65,536 words and the process end must equal the undebugged run. Sampling, not proof.",
-        note="Trusted: the guarded hooks and fd capture; the undebugged real run as reference. Programs take no input in sessions.",
+        technique="deterministic simulation: seeded debugger schedules (pause points) over seeded programs, differential against the undebugged run of the same image on the real VM; 1 session in 30 repeats the differential at process level (shipped `lace run` vs shipped `lace debug`, real pipe)",
+        text="Seeded exploration of (program, command script, transport, separators, end-of-input point); the debugger's commands are the schedule that decides at which instruction boundaries the program is paused. Verdict is model-free: program stdout, final registers/PC/CC/65,536 words and the process end must equal the undebugged run; a panic under transparent commands is a violation however the script would have gone on. One session in 30 also runs the shipped binary twice (`run` and `debug` with the script through --command / a real pipe, program input on the same stdin) and compares program output and exit status: the front-end arms run nowhere in-process. Sampling, not proof.",
+        note="Trusted: the guarded hooks and fd capture; the undebugged real run as reference. Programs take input only where the script cannot eat it (all of the script in --command, or program input following the final quit on stdin); the simulated stdin hands out chunks of a size drawn per run.",
     ),
     "C10": dict(
         category="exploration",
@@ -81,7 +81,7 @@ CLAIMED = {
         category="exploration",
         ref="DESIGN.md §5 C06, §3.3",
         technique="deterministic simulation at the process boundary: compile and run as two real processes communicating through a file on a simulated disk that tears, truncates, extends and re-heads the file and injects short/interrupted/failing reads (LD_PRELOAD syscall shim); reference loader predicate and differential run",
-        text="Per generated program: object bytes = origin + library words big-endian; run(.lc3) == run(.asm) in status and program output; every torn length of an image, appended bytes, images ending exactly at / one below / one above the top of memory are accepted or rejected as the reference loader says, never a crash; short reads and EINTR are transparent, EIO is a clean error. Sampling over programs; the torn-length sweep per image is complete.",
+        text="Per generated program: object bytes = origin + library words big-endian; run(.lc3) == run(.asm) in status and program output; every torn length of an image, appended bytes, images ending exactly at / one below / one above the top of memory are accepted or rejected as the reference loader says, never a crash; short reads and EINTR are transparent, EIO is a clean error; the same bytes offered as a named pipe, in pieces, load and run like the regular file. Sampling over programs; the torn-length sweep per image is complete.",
         note="Trusted: faultfs.so interposition, the guard-off binary built from the current tree, library emission as expected bytes.",
     ),
     "C08": dict(
